@@ -104,18 +104,25 @@ class DrawRecorder:
         _random.randint, _random.random = self._ri, self._rr
 
 
-def run_impl(kind, members, cap, x, rng):
-    """run the real combinator; returns dict(path, y, calls, draws(list))"""
+def run_impl(kind, members, cap, x, rng, inplace=None):
+    """run the real combinator; returns dict(path, y, calls, draws(list)).
+    inplace[i] = True: member i rewrites its argument in place and returns that same list (as the functions
+    compiled by mystic.symbolic do); the combinators hand every member a copy, so this must not matter."""
     from mystic import constraints as C
     calls = [0]
     fired = []
 
-    def wrap(term):
+    def wrap(term, inpl):
         def f(v):
             calls[0] += 1
-            return dsl.con_apply(term, v)
+            y = dsl.con_apply(term, v)
+            if inpl:
+                v[:] = y
+                return v
+            return y
         return f
-    ms = [wrap(m) for m in members]
+    inplace = inplace or [False] * len(members)
+    ms = [wrap(m, ip) for m, ip in zip(members, inplace)]
     onexit = lambda v: (fired.append("exit"), v)[1]
     onfail = lambda v: (fired.append("fail"), v)[1]
     with DrawRecorder(rng) as rec:
@@ -265,13 +272,15 @@ def run_shard(pid, seed, shard, ncases, tier, extra):
         members = [gen_member(rng, dim, flavour) for _ in range(n)]
         cap = rng.choice([0, 1, 2, 3, 5, 8, 13, 20])
         x = gen_point(rng, dim)
+        inplace = [rng.random() < 0.5 for _ in members] if rng.random() < 0.6 else [False] * len(members)
         try:
-            obs = run_impl(kind, members, cap, x, rng)
+            obs = run_impl(kind, members, cap, x, rng, inplace)
         except Exception as exc:
             findings.append(Finding("monitor", "%s_/raises" % kind, "%s_ raised %r" % (kind, exc),
                                     {"kind": kind, "members": [dsl.con_sexp(m) for m in members], "cap": cap, "x": x}))
             continue
         line = request_line(kind, members, cap, x, obs["draws"])
+        obs["inplace"] = inplace
         cases.append((kind, members, cap, x, obs, flavour))
         lines.append(line)
     replies = leandrv.run_driver(lines)
